@@ -462,6 +462,13 @@ impl<F: Field> Assignment<F> for MockProver<F> {
             }
         }
 
+        #[cfg(feature = "verif-hooks")]
+        let to = {
+            let v = to();
+            crate::circuit::verif_hooks::note_cell(column.index(), row);
+            move || v
+        };
+
         match to().into_field().evaluate().assign() {
             Ok(to) => {
                 let value = self
@@ -1248,6 +1255,19 @@ impl<F: FromUniformBytes<64> + Ord> MockProver<F> {
     /// and the associated values contained on each Cell.
     pub fn instance(&self) -> &Vec<Vec<InstanceValue<F>>> {
         &self.instance
+    }
+
+    /// Mutable access to the advice table (verification hook: lets a test
+    /// harness act as a dishonest prover at the table level).
+    #[cfg(feature = "verif-hooks")]
+    pub fn advice_mut(&mut self) -> &mut Vec<Vec<CellValue<F>>> {
+        &mut self.advice
+    }
+
+    /// Mutable access to the instance table (verification hook).
+    #[cfg(feature = "verif-hooks")]
+    pub fn instance_mut(&mut self) -> &mut Vec<Vec<InstanceValue<F>>> {
+        &mut self.instance
     }
 
     /// Returns the permutation argument (`Assembly`) used within a MockProver
